@@ -94,6 +94,26 @@ Definition check_profile (c pi s2pi3 : Q) (k : pkind) (a : pargs) (ops : list po
                                 Qeq_bool (fst m) (fst (snd e)) && Qeq_bool (snd m) (snd (snd e))) segs) ]
   end.
 
+(* several Laser nodes sharing one profile: results of the calls, number of listening extra nodes, and for each
+   of them the number of cylinders and sampled (index, (offset, height)) *)
+Definition check_node (m : option (list (Q * Q))) (i : Z * list (Z * (Q * Q))) : bool :=
+  match m with
+  | Some l => (Z.of_nat (length l) =? fst i)%Z &&
+              forallb (fun e => check_seg (nth (Z.to_nat (fst e)) l (-1, -1)) (snd e)) (snd i)
+  | None => false
+  end.
+
+Definition check_nodes (c : Q) (k : pkind) (a : pargs) (ops : list mop) (rs : list Z)
+    (nodes : list (Z * list (Z * (Q * Q)))) : Z :=
+  match construct c k a with
+  | None => 1%Z
+  | Some s0 =>
+      let (m, mr) := mrun c (mkM s0 []) ops in
+      first_bad [
+        (2%Z, forallb2 Z.eqb (map res_code mr) rs);
+        (3%Z, forallb2 check_node (geom (base m) :: extras m) nodes) ]
+  end.
+
 (* ------------------------------------------------------------------------------------------ *)
 (* spectra                                                                                      *)
 (* ------------------------------------------------------------------------------------------ *)
